@@ -5,6 +5,12 @@ use rdp::core::per;
 use rdp::model::data::Message;
 use std::io::Cursor;
 
+/// a reader that hands out ONE byte per `read` call (a segment / record boundary after every byte): decoders
+/// must gather what they need (`read_exact`), not assume that one `read` fills their buffer
+struct Trickle(Cursor<Vec<u8>>);
+impl std::io::Read for Trickle { fn read(&mut self, b: &mut [u8]) -> std::io::Result<usize> { if b.is_empty() { return Ok(0); } self.0.read(&mut b[..1]) } }
+fn left_t(c: &Trickle) -> String { left(&c.0) }
+
 fn left(c: &Cursor<Vec<u8>>) -> String { let p = (c.position() as usize).min(c.get_ref().len()); hex(&c.get_ref()[p..]) }
 fn tailed(w: &[u8]) -> Cursor<Vec<u8>> { let mut v = w.to_vec(); v.extend_from_slice(&[0xAB, 0xCD]); Cursor::new(v) }
 
@@ -102,22 +108,22 @@ pub fn run_case(toks: &[&str], em: &mut Emitter) {
                 let mut w = Cursor::new(vec![]);
                 per::write_octet_stream(&os, m, &mut w).unwrap();
                 let w = w.into_inner();
-                let mut c = tailed(&w);
+                let mut c = Trickle(tailed(&w));
                 let r = per::read_octet_stream(&os, m, &mut c);
-                Obs::new(format!("w={} {}", hex(&w), match r { Ok(()) => format!("r=ok left={}", left(&c)), Err(_) => "r=E".into() })).nt(true)
+                Obs::new(format!("w={} {}", hex(&w), match r { Ok(()) => format!("r=ok left={}", left_t(&c)), Err(_) => "r=E".into() })).nt(true)
             }
             "per_rd_len" => { let mut c = Cursor::new(unhex(&t[1])); let r = per::read_length(&mut c); Obs::new(match r { Ok(v) => format!("r={} left={}", v, left(&c)), Err(_) => "r=E".into() }) }
             "per_rd_int" => { let mut c = Cursor::new(unhex(&t[1])); let r = per::read_integer(&mut c); Obs::new(match r { Ok(v) => format!("r={} left={}", v, left(&c)), Err(_) => "r=E".into() }).nt(true) }
             "per_rd_int16" => { let mut c = Cursor::new(unhex(&t[2])); let r = per::read_integer_16(nat(&t[1]) as u16, &mut c); Obs::new(match r { Ok(v) => format!("r={} left={}", v, left(&c)), Err(_) => "r=E".into() }).nt(true) }
             "per_rd_oid" => {
                 let o: Vec<u8> = parse_nat_list(&t[1]).iter().map(|x| *x as u8).collect();
-                let mut c = Cursor::new(unhex(&t[2])); let r = per::read_object_identifier(&o, &mut c);
-                Obs::new(match r { Ok(v) => format!("r={} left={}", v, left(&c)), Err(_) => "r=E".into() }).nt(true)
+                let mut c = Trickle(Cursor::new(unhex(&t[2]))); let r = per::read_object_identifier(&o, &mut c);
+                Obs::new(match r { Ok(v) => format!("r={} left={}", v, left_t(&c)), Err(_) => "r=E".into() }).nt(true)
             }
             "per_rd_octet" => {
                 let e = unhex(&t[1]); let m = nat(&t[2]) as usize;
-                let mut c = Cursor::new(unhex(&t[3])); let r = per::read_octet_stream(&e, m, &mut c);
-                Obs::new(match r { Ok(()) => format!("r=ok left={}", left(&c)), Err(_) => "r=E".into() }).nt(true)
+                let mut c = Trickle(Cursor::new(unhex(&t[3]))); let r = per::read_octet_stream(&e, m, &mut c);
+                Obs::new(match r { Ok(()) => format!("r=ok left={}", left_t(&c)), Err(_) => "r=E".into() }).nt(true)
             }
             "per_rd_numstr" => {
                 let m = nat(&t[1]) as usize;
